@@ -882,7 +882,7 @@ fn case_buffered(cx: &mut Cx, cs: u64) {
 
 fn case_stats(cx: &mut Cx, cs: u64, enum_pattern: Option<Vec<bool>>) {
     let mut r = Rng::new(cs);
-    let which = r.below(4); // 0 udp, 1 unix, 2 buffered udp, 3 buffered unix
+    let which = r.below(5); // 0 udp, 1 unix, 2 buffered udp, 3 buffered unix, 4 a user-written buffered UDP sink made of cadence::ext parts
     let threads = if enum_pattern.is_some() { 1 } else { *r.pick(&[1usize, 1, 2, 4, 8, 16]) };
     let through_queue = r.chance(1, 3);
     let dir = fresh_dir();
@@ -968,11 +968,52 @@ fn case_stats(cx: &mut Cx, cs: u64, enum_pattern: Option<Vec<bool>>) {
                 Arc::new(BufferedUdpMetricSink::with_capacity(udp_to, s, cap).unwrap())
             }
         }
-        _ => {
+        3 => {
             let s = UnixDatagram::unbound().unwrap();
             fd = s.as_raw_fd();
             label = "BufferedUnixMetricSink";
             Arc::new(BufferedUnixMetricSink::with_capacity(&unix_path, s, cap))
+        }
+        _ => {
+            // what the library's documentation shows users how to build: a sink of their own from the public parts
+            // `cadence::ext::{MultiLineWriter, SocketStats}` - the write adapter counts through a CLONE of the stats
+            // handle, `stats()` reads the sink's own handle
+            struct Adapter {
+                sock: UdpSocket,
+                to: SocketAddr,
+                stats: cadence::ext::SocketStats,
+            }
+            impl std::io::Write for Adapter {
+                fn write(&mut self, b: &[u8]) -> std::io::Result<usize> {
+                    self.stats.update(self.sock.send_to(b, self.to), b.len())
+                }
+                fn flush(&mut self) -> std::io::Result<()> {
+                    Ok(())
+                }
+            }
+            struct UserSink {
+                w: std::sync::Mutex<cadence::ext::MultiLineWriter<Adapter>>,
+                stats: cadence::ext::SocketStats,
+            }
+            impl MetricSink for UserSink {
+                fn emit(&self, m: &str) -> std::io::Result<usize> {
+                    use std::io::Write;
+                    self.w.lock().unwrap().write(m.as_bytes())
+                }
+                fn flush(&self) -> std::io::Result<()> {
+                    use std::io::Write;
+                    self.w.lock().unwrap().flush()
+                }
+                fn stats(&self) -> cadence::SinkStats {
+                    (&self.stats).into()
+                }
+            }
+            let sck = UdpSocket::bind("127.0.0.1:0").unwrap();
+            fd = sck.as_raw_fd();
+            label = "user-written sink (ext::MultiLineWriter + ext::SocketStats)";
+            let stats = cadence::ext::SocketStats::default();
+            cx.rep.obs("user_written_sinks_counting_through_a_cloned_stats_handle", 1);
+            Arc::new(UserSink { w: std::sync::Mutex::new(cadence::ext::MultiLineWriter::new(Adapter { sock: sck, to: udp_to, stats: stats.clone() }, cap)), stats })
         }
     };
     struct Fwd(Arc<dyn MetricSink + Send + Sync + std::panic::RefUnwindSafe>, Arc<AtomicU64>);
